@@ -17,6 +17,7 @@ Oracle     : (1) the reported set is exactly the item/attribute references found
 import json
 import vlib
 from checks import refs_shared as rs
+from checks import refs_nested as rn
 from checks.refs_shared import gen_pexp, gen_state, cterm, Unrep
 
 RUNNER = "refs_runner.py"
@@ -223,6 +224,22 @@ def run(ctx):
                 raise
             coq_ok = False
             ctx.notes.append("case files not evaluated (development does not build): " + str(e)[:300])
+    # nested layouts: the properties derived from the registered dependencies (ref._tasks =
+    # manager.tartasks[ref], ref._find_dependant_targets()) on locations whose owners / members /
+    # siblings have definitions, vs the model (tasks_of, dependants over occ)
+    ncases = [rn.gen_case(ctx.rng, with_stmts=False) for _ in range(ctx.pick(80, 2000))]
+    nres, _, ndiff, nitems, nidx, _, nprobes, _ = rn.run_stream(ctx, ids, ncases, "n")
+    nmism = []
+    if coq_ok:
+        try:
+            mm, _ = rs.eval_chunks(ctx, nitems, "c04ncase", "c05n_mismatches", "n", per=12)
+            nmism = [nidx[k] for k in mm]
+        except vlib.InfraError as e:
+            if proof_ok:
+                raise
+            coq_ok = False
+    ctx.evaluations += 2 * nprobes
+    ctx.traces += 2 * len(ncases)
     ctx.evaluations += 2 * len(cases)
     ctx.traces += 2 * len(cases)
     for s in seen_slots:
@@ -237,12 +254,14 @@ def run(ctx):
                                      "ill_formed": sum(1 for c in cases if c.get("wellformed") is False),
                                      "classes_discovered": conc, "classes_covered": len(seen_cls & set(conc)),
                                      "slots_required": len(required_slots), "slots_covered": len(set(required_slots) & seen_slots),
-                                     "result_shapes": shapes,
+                                     "result_shapes": shapes, "nested_layout_cases": len(ncases), "nested_probes_compared": nprobes,
                                      "deps_size_hist": {str(k): sum(1 for r in res["compiled"] if r["deps"][0] == "set" and len(r["deps"][1]) == k) for k in range(0, 12)}}
     ctx.samples = [{"term": res["compiled"][0]["term"], "deps": res["compiled"][0]["deps"]},
                    {"pexp": cases[-1].get("pexp"), "deps": res["compiled"][-1]["deps"]}]
     ctx.obligations.append(("correspondence: _get_dependencies() = model deps over GenRefs.v = syntactic occurrences, both builds",
                             coq_ok and not mism and not build_diff, f"{len(mism)} mismatching, {len(build_diff)} differing between builds, of {len(cases)}"))
+    ctx.obligations.append(("correspondence (nested layouts): ref._tasks and ref._find_dependant_targets() = model (tasks_of / dependants over the occurrence sets), both builds agree",
+                            coq_ok and not nmism and not ndiff, f"{len(nmism)} mismatching cases of {len(nitems)}, {len(ndiff)} differing between builds"))
     ctx.obligations.append(("oracle: reported set = locations found by an independent slot walk; perturbation through set_value", not oracle_fail, f"{len(oracle_fail)} failing"))
     ctx.obligations.append(("coverage: every BaseRef subclass found by introspection is known to the translator and was exercised, every operand slot held a reference",
                             not unknown and not missing_cls and not missing_slots, f"unknown={unknown} classes not exercised={missing_cls} slots not exercised={missing_slots}"))
@@ -253,8 +272,13 @@ def run(ctx):
         bad, r = case_fails(small, ids, b)
         vlib.violation(ctx, {"kind": "oracle", "what": "reported dependencies differ from the locations the expression reads", "build": b,
                              "case": small, "observed": r, "problems": r.get("oracle"), "how_to_replay": "./check C05 --replay <this file>"})
-    elif mism or build_diff or unknown or missing_cls or missing_slots or not proof_ok or not coq_ok:
+    elif mism or nmism or ndiff or build_diff or unknown or missing_cls or missing_slots or not proof_ok or not coq_ok:
         what = list(getattr(ctx, "broken", []))
+        if nmism:
+            i = nmism[0]
+            what.append(f"nested-layout correspondence (_tasks / _find_dependant_targets) broke on {len(nmism)} cases, first: defs={json.dumps(ncases[i]['defs'])} observed={json.dumps(nres['compiled'][i].get('probes'))[:1200]}")
+        if ndiff:
+            what.append(f"compiled and pure builds differ on {len(ndiff)} nested cases")
         if mism:
             i = mism[0]
             what.append(f"correspondence broke on {len(mism)} cases, first: term={json.dumps(res['compiled'][i]['term'])} deps={json.dumps(res['compiled'][i]['deps'])}")
